@@ -173,17 +173,30 @@ def failure_schema(msg, ext):
     return Schema(q)
 
 
-def _failures(stage: int, m: int, cfg: int, ext: bool, ast: bool = False) -> bool:
+EXT_KINDS = ("none", "dict", "mappingproxy", "OrderedDict", "UserDict", "ChainMap", "empty dict")
+
+
+def make_extensions(kind):
+    import collections
+    import types
+    content = {"code": 7, "nested": {"k": [1, "two"]}}
+    return {"none": None, "dict": content, "mappingproxy": types.MappingProxyType(content), "OrderedDict": collections.OrderedDict(content),
+            "UserDict": collections.UserDict(content), "ChainMap": collections.ChainMap({"code": 7}, {"nested": {"k": [1, "two"]}}), "empty dict": {}}[kind]
+
+
+def _failures(stage: int, m: int, cfg: int, ext: int, ast: bool = False) -> bool:
     """
-    pre: 0 <= stage < len(STAGES) and 0 <= m < len(MESSAGES) and 0 <= cfg <= 1
+    pre: 0 <= stage < len(STAGES) and 0 <= m < len(MESSAGES) and 0 <= cfg <= 1 and 0 <= ext < len(EXT_KINDS)
+    pre: ext <= 1 or stage == 9 or stage == 4
     post: _
     """
     ST, MSG, C = pick(stage, STAGES), pick(m, MESSAGES), concrete_int(cfg, 0, 1)
+    EK = pick(ext, EXT_KINDS)
     AST = True if ast else False
     if AST and ST == "parse":
         return result(True, False)
-    EXT = {"code": 7, "nested": {"k": [1, "two"]}} if ext else None
     with untraced():
+        EXT = make_extensions(EK)
         schema = failure_schema(MSG, EXT)
         root = {"o": {"x": 1, "nn": None}, "l": [{"x": 1, "nn": 2}, None, {"x": 3, "nn": None}], "nn": None, "a": 1, "s": "t",
                 "f": float("nan") if ST == "float-nan" else (float("inf") if ST == "float-inf" else 1.5), "fs": [1.0, float("-inf")] if ST.startswith("float") else [1.0]}
@@ -219,8 +232,9 @@ def _failures(stage: int, m: int, cfg: int, ext: bool, ast: bool = False) -> boo
             expected_nulls = [p for p in nulls if not (p and p[-1] == 1 and p[0] == "l" and len(p) == 2)]   # l[1] is a plain null item
             if paths != expected_nulls:
                 problem = "nulls %r vs error paths %r" % (nulls, paths)
-        if not problem and ST == "resolver-error-ext" and EXT is not None:
-            if not all(e.get("extensions") == EXT for e in resp["errors"]):
+        if not problem and ST == "resolver-error-ext" and EXT:
+            # any Mapping is a legal extensions argument; its content must arrive as a JSON object
+            if not all(e.get("extensions") == {"code": 7, "nested": {"k": [1, "two"]}} for e in resp["errors"]):
                 problem = "extensions not passed through"
         if not problem and ST.startswith("float"):
             # non-finite floats cannot be represented: the field must become null with an error, siblings stay
@@ -296,9 +310,9 @@ CONDITIONS = [
     Cond(
         name="failures", fn=_failures, quick=60, thorough=120,
         bound="13 failure stages (parse, validate, operation selection, variable coercion with one / several errors, validation errors with several nodes / several errors over several lines, resolver error, non-null, list item, "
-              "NaN, infinities, extensions) x 4 resolver-error messages (incl. empty, quotes/backslash/newline, long) x 2 executors x extensions on/off x request given as text or as a parsed document",
-        symbolic={"stage": "choice", "m": "choice: message", "cfg": "choice: BlockingExecutor / Executor", "ext": "choice", "ast": "choice: text / parsed document"},
-        witness={"stage": 4, "m": 0, "cfg": 0, "ext": False, "ast": False},
+              "NaN, infinities, extensions) x 4 resolver-error messages (incl. empty, quotes/backslash/newline, long) x 2 executors x resolver-supplied extensions (none, dict, empty dict, and for the resolver-error stages mappingproxy / OrderedDict / UserDict / ChainMap) x request given as text or as a parsed document",
+        symbolic={"stage": "choice", "m": "choice: message", "cfg": "choice: BlockingExecutor / Executor", "ext": "choice: kind of Mapping given as extensions", "ast": "choice: text / parsed document"},
+        witness={"stage": 4, "m": 0, "cfg": 0, "ext": 0, "ast": False},
     ),
     Cond(
         name="render_kernel", fn=_render_kernel, quick=100, thorough=600, per_path=30,
